@@ -19,6 +19,7 @@ EXPLANATION = (
     "len(args) names of the constructor's own signature (inspect.signature for dataclasses, _fields for NamedTuples), keywords by name "
     "among the remaining names, surplus and unknown arguments raise ValueError; (R5) a captured class survives as a Constant callee exactly "
     "when it is a dataclass or has _fields; (R6) comprehension targets are protected from capture rewriting for all four comprehension forms."
+    " (R4, as of D48) a keyword that names a field already filled positionally, and a `*` argument, raise ValueError."
 )
 NOT_DECIDED = "equality of the sequence computed by the lowered chain and by Python's comprehension on data."
 
